@@ -21,7 +21,12 @@ single token, `-` for the empty string.
                                    individual failure is also emitted as its own `csdetect` line
   J csdetectagg <k> <hex original> <tried> <rejected> <exempt>     aggregate over random k-substitutions
   J descaccept <hex descriptor#checksum> <verdict>   a well-formed descriptor carrying the SPEC checksum must be accepted
-  J depthlimit <round|curly> <d> <verdict>   d-fold well-formed nesting is accepted iff d ≤ 402 (C11.parse_tree_depth_bounded)
+  J depthlimit <round|curly> <d> <verdict>   d-fold well-formed nesting is accepted iff d ≤ 403 = MAX_RECURSION_DEPTH + 1
+                                   (C11.printed_tree_accepted_partial / printed_deep_tree_rejected)
+  J descdepth <verdict> nesting=<m> <wrapper> taptree-depth=<t> leaf-height=<h> chars=<len>
+                                   a descriptor the library itself constructed (Descriptor::new_wsh / new_sh_wsh / new_tr around a
+                                   sane miniscript of tree height h) and printed must be accepted by `Descriptor::from_str` and print
+                                   the same again: ok iff the verdict is `accepted`
   J nopanic <op> <hex | gen:description> <verdict>   ok iff verdict ≠ PANIC
   J nohang <op> <gen:description> <fast|SLOW>
 -/
@@ -156,9 +161,10 @@ def opsText (kind op : String) (args : List String) : Option String :=
     let s ← unhex h
     pure (okbadT (Spec.Bch.check s.toList && verdict == "accepted"))
   | "J", "depthlimit", [_, d, verdict] => do
-    -- `d` well-formed nested levels `a(a(…x…))`: accepted iff d ≤ MAX_RECURSION_DEPTH
+    -- `d` well-formed nested levels `a(a(…x…))`: accepted iff d ≤ MAX_RECURSION_DEPTH + 1
     let d ← d.toNat?
-    pure (okbadT (verdict == (if d ≤ Expr.MAX_RECURSION_DEPTH then "accepted" else "rejected")))
+    pure (okbadT (verdict == (if d ≤ Expr.MAX_RECURSION_DEPTH + 1 then "accepted" else "rejected")))
+  | "J", "descdepth", [verdict, _, _, _, _, _] => pure (okbadT (verdict == "accepted"))
   | "J", "nopanic", [_, _, verdict] => pure (okbadT (verdict != "PANIC"))
   | "J", "nohang", [_, _, verdict] => pure (okbadT (verdict == "fast"))
   | _, _, _ => none
